@@ -319,6 +319,28 @@ func groundScript(as []*Term, goal *Term) string {
 	}
 	var ground []*Term // quantifier-free parts of the assumptions (and pattern-carrying axioms)
 	var quant []*Term  // assumptions with quantifiers
+	{
+		// quantifiers that are existential in effect become constants (and candidates) first
+		var consts []*Term
+		as2 := make([]*Term, len(as))
+		for i, a := range as {
+			if hasBound(a) && !hasPattern(a) {
+				as2[i] = skolemPolar(a, true, &consts)
+			} else {
+				as2[i] = a
+			}
+		}
+		as = as2
+		if len(consts) <= 24 {
+			for _, c := range consts {
+				if classSkolems[c] {
+					classCands[c] = true
+				}
+				cands = append(cands, c)
+				sk = append(sk, c)
+			}
+		}
+	}
 	for _, a := range as {
 		switch {
 		case !hasBound(a):
@@ -394,6 +416,63 @@ func groundScript(as []*Term, goal *Term) string {
 	// an existential goal is proved by one of the candidates
 	g = existsToCandidates(g, cands)
 	return script(append(ground, insts...), g, nil)
+}
+
+// skolemPolar eliminates, in an assumption, the quantifiers that are existential in effect — exists in positive
+// position, forall in negative position (under the antecedent of an implication or a negation) — by fresh constants.
+// Sound for refutation: the result is equisatisfiable with the assumption in any context that does not mention the
+// new constants.
+func skolemPolar(t *Term, positive bool, consts *[]*Term) *Term {
+	if !hasBound(t) {
+		return t
+	}
+	switch {
+	case t.Op == "=>" && len(t.Args) == 2:
+		a := skolemPolar(t.Args[0], !positive, consts)
+		b := skolemPolar(t.Args[1], positive, consts)
+		if a == t.Args[0] && b == t.Args[1] {
+			return t
+		}
+		return mk(SBool, "=>", a, b)
+	case t.Op == "and" || t.Op == "or":
+		changed := false
+		args := make([]*Term, len(t.Args))
+		for i, x := range t.Args {
+			args[i] = skolemPolar(x, positive, consts)
+			if args[i] != x {
+				changed = true
+			}
+		}
+		if !changed {
+			return t
+		}
+		return mk(SBool, t.Op, args...)
+	case t.Op == "not" && len(t.Args) == 1:
+		a := skolemPolar(t.Args[0], !positive, consts)
+		if a == t.Args[0] {
+			return t
+		}
+		return mk(SBool, "not", a)
+	case (isQuant(t, "exists") && positive) || (isQuant(t, "forall") && !positive):
+		v, ok := binderVar(t.Args[0])
+		if !ok {
+			return t
+		}
+		skolemCount++
+		c := konst(fmt.Sprintf("skp!%d", skolemCount), SInt)
+		ranged := false
+		if t.Op == "forall" {
+			ranged = isRanged(t.Args[1], v)
+		} else {
+			ranged = t.Args[1].Op == "and" && isRanged(mk(SBool, "=>", t.Args[1], tTrue), v)
+		}
+		if !ranged {
+			classSkolems[c] = true
+		}
+		*consts = append(*consts, c)
+		return skolemPolar(substVar(t.Args[1], v, c, map[*Term]*Term{}), positive, consts)
+	}
+	return t
 }
 
 // elimExists replaces existential quantifiers in positive position of a ground instance by fresh witness constants.
